@@ -94,7 +94,7 @@ int clock_gettime(clockid_t c, struct timespec *ts) {
 
 
 def build_shim():
-    d = os.path.join(util.BUILD, "x01")
+    d = os.path.join(util.RUNDIR, "x01")
     os.makedirs(d, exist_ok=True)
     src, so = os.path.join(d, "clockshim.c"), os.path.join(d, "clockshim.so")
     if not os.path.exists(so) or not os.path.exists(src) or open(src).read() != SHIM_C:
@@ -704,7 +704,7 @@ def lockstep_phase(c, bindir, shim, rnd, msgs, nrand):
         starts.append(len(script))
         script += h
     script.append({"e": "end"})
-    sp = os.path.join(util.BUILD, "x01", "script.ndjson")
+    sp = os.path.join(util.RUNDIR, "x01", "script.ndjson")
     util.write_ndjson(sp, script)
     res = c.tlc("StatusGen", "StatusGen.cfg", subdir="gen", workers=1, coverage=False, timeout=900, env={"SCRIPT": sp}, heap="4g")
     if "GENDONE" not in res.stdout:
@@ -884,7 +884,7 @@ def kill_phase(c, bindir, rnd, msgs, n):
                 raise ValueError(str(why))
         except ValueError as ex:
             bad += 1
-            shutil.copy(p, os.path.join(util.BUILD, "x01", "killed_status_%d.json" % j))
+            shutil.copy(p, os.path.join(util.RUNDIR, "x01", "killed_status_%d.json" % j))
             c.violation("after kill -9 status.json is not a complete document: %s" % str(ex)[:200],
                         {"phase": "kill", "broken": "FileNeverHalfWritten"}, {"kill": j})
     c.extra["kill_runs"] = {"runs": n, "bad": bad}
@@ -895,7 +895,7 @@ def composition_phase(c, bindir, rnd):
     requests by root, rules switched between none and deny/enforce: every request is one IncreaseConnectionCount and one
     entry in the connection summary; every refused one is also one entry in the failed-authorization summary."""
     name = "x01_rig"
-    sd = os.path.join(util.BUILD, "run", name, "status")
+    sd = os.path.join(util.RUNDIR, name, "status")
     deny = {"defaultAccess": "deny", "mode": "enforce", "id": "x01deny", "rules": None}
     steps, n = [], 0
     for ci in range(10):
